@@ -1,7 +1,8 @@
 (* Proofs/QueriesReadParts.v — Conn.ReadPartitions: the request that goes out for every
    shape of the argument, and the result against a broker holding a cluster. *)
 From Coq Require Import List NArith ZArith Bool.
-From KV Require Import Lib.Bits Model.Queries Proofs.QueriesSpec Proofs.QueriesSeekMap.
+From Coq Require Import Sorting.Permutation.
+From KV Require Import Lib.Bits Model.Queries Proofs.QueriesSpec Proofs.QueriesSeekMap Proofs.QueriesMerge.
 Import ListNotations.
 Open Scope Z_scope.
 
@@ -74,3 +75,45 @@ Lemma client_query_exact : forall (A Q R U : Type) (transport : A -> Q -> R) (f 
   | None => None
   end.
 Proof. intros. destruct req_addr, client_addr; reflexivity. Qed.
+
+(* ---- transport.go join / await: tied to the Merge theorems ---- *)
+Lemma await_results_of : forall outcome_of rep iso es,
+  await_all (send_of outcome_of) (map (sub_request rep iso) es) = results_of es (map outcome_of es).
+Proof.
+  intros outcome_of rep iso es. unfold await_all, results_of.
+  induction es as [|e es IH]; [reflexivity|].
+  cbn [map combine]. rewrite IH. f_equal.
+  destruct e as [t p]. reflexivity.
+Qed.
+
+Lemma split_round_trip_merge : forall outcome_of r,
+  split_round_trip (send_of outcome_of) r =
+  listoffsets_merge (listoffsets_split r) (results_of (req_entries r) (map outcome_of (req_entries r))).
+Proof.
+  intros. unfold split_round_trip. rewrite split_exact at 2. rewrite await_results_of. reflexivity.
+Qed.
+
+Lemma split_round_trip_exact : forall outcome_of r,
+  existsb is_answer (map outcome_of (req_entries r)) = true \/ req_entries r = [] ->
+  exists resp,
+    split_round_trip (send_of outcome_of) r = MergeOk resp /\
+    Permutation (resp_entries (r_topics resp)) (expected_entries (req_entries r) (map outcome_of (req_entries r))) /\
+    r_throttle resp = max_throttle (map outcome_of (req_entries r)) /\
+    merged_sorted (r_topics resp).
+Proof.
+  intros outcome_of r H. rewrite split_round_trip_merge.
+  apply listoffsets_exact.
+  - apply map_length.
+  - destruct H as [H|H]; [left; exact H|right; rewrite H; reflexivity].
+Qed.
+
+Lemma split_round_trip_all_failed : forall outcome_of r,
+  req_entries r <> [] -> existsb is_answer (map outcome_of (req_entries r)) = false ->
+  split_round_trip (send_of outcome_of) r = MergeErr (first_error (map outcome_of (req_entries r))).
+Proof.
+  intros outcome_of r Hne H. rewrite split_round_trip_merge.
+  apply listoffsets_all_failed.
+  - apply map_length.
+  - intro E. apply Hne. destruct (req_entries r); [reflexivity|discriminate E].
+  - exact H.
+Qed.
